@@ -1946,7 +1946,13 @@ impl Archive {
             for i in 0..sector_count {
                 let sector_start = sector_offsets[i] as usize;
                 let sector_end = sector_offsets[i + 1] as usize;
-                let sector_compressed_size = sector_end - sector_start;
+                // The offsets come from the file: they have to ascend
+                let sector_compressed_size =
+                    sector_end.checked_sub(sector_start).ok_or_else(|| {
+                        Error::invalid_format(format!(
+                            "Patch file sector {i} ends before it starts"
+                        ))
+                    })?;
 
                 log::debug!(
                     "Reading sector {}: offset={}, size={} bytes",
@@ -1985,8 +1991,14 @@ impl Archive {
                 );
 
                 // Decompress using standard MPQ decompression
-                let expected_size =
-                    sector_size.min(patch_data_size as usize - decompressed_data.len());
+                let remaining = (patch_data_size as usize)
+                    .checked_sub(decompressed_data.len())
+                    .ok_or_else(|| {
+                        Error::invalid_format(
+                            "Patch file sectors hold more data than the patch header declares",
+                        )
+                    })?;
+                let expected_size = sector_size.min(remaining);
                 let sector_decompressed = compression::decompress(
                     &sector_data[1..], // Skip compression method byte
                     compression_method,
